@@ -70,3 +70,49 @@ def main(a):
         json.dump(prev, f, indent=1, sort_keys=True)
     print(f"sensitivity: {len(ids) - missed}/{len(ids)} seeded changes detected by the check of the property they break")
     return 0 if not missed else 1
+
+
+def benign(a):
+    """./check selftest benign — behaviour-preserving patches under /verif/benign
+    must keep the repository's suite green AND every listed quick check at exit 0."""
+    from . import main as M
+
+    repo = os.environ.get("VERIF_REPO", "/repo")
+    bdir = os.path.join(M.VERIF, "benign")
+    props = json.load(open(os.path.join(bdir, "props.json")))
+    names = a.props or sorted(props)
+    report = {}
+    bad = 0
+    for name in names:
+        scratch = tempfile.mkdtemp(prefix="sens-repo-", dir="/dev/shm")
+        try:
+            subprocess.run(f"git -C {repo} archive HEAD | tar -x -C {scratch}", shell=True, check=True)
+            r = subprocess.run(["git", "apply", os.path.join(bdir, name + ".diff")], cwd=scratch, capture_output=True, text=True)
+            if r.returncode != 0:
+                report[name] = {"error": "does not apply: " + r.stderr[-200:]}
+                bad += 1
+                print(f"benign {name}: DOES NOT APPLY")
+                continue
+            t = subprocess.run(
+                ["/venv/bin/python", "-m", "pytest", "-q", "-p", "no:cacheprovider", "-x"], cwd=scratch,
+                env=dict(os.environ, PYTHONPATH=scratch + "/src"), capture_output=True, text=True,
+            )
+            tests = t.stdout.strip().splitlines()[-1] if t.stdout.strip() else "?"
+            res = {}
+            for p in props[name]:
+                rr = subprocess.run(
+                    [os.path.join(M.VERIF, "check"), "run", p, "--tier", "quick", "--no-evidence", "--max-minimise", "1", "--min-budget", "30"],
+                    env=dict(os.environ, VERIF_REPO=scratch), capture_output=True, text=True,
+                )
+                res[p] = rr.returncode
+                if rr.returncode != 0:
+                    print("   ", [ln[:250] for ln in rr.stdout.splitlines() if "VIOLATION" in ln or "HARNESS" in ln or "signature" in ln][:4])
+            ok = "164 passed" in tests and all(v == 0 for v in res.values())
+            bad += 0 if ok else 1
+            report[name] = {"tests": tests, "checks": res, "ok": ok}
+            print(f"benign {name}: {'OK' if ok else 'ALARM'} tests='{tests}' {res}", flush=True)
+        finally:
+            shutil.rmtree(scratch, ignore_errors=True)
+    with open(os.path.join(M.VERIF, "reports", "benign.json"), "w") as f:
+        json.dump(report, f, indent=1, sort_keys=True)
+    return 0 if not bad else 1
